@@ -751,10 +751,6 @@ REVIEWED_CONVERSIONS: dict[tuple[str, str], str] = {
         "parses the `version` setting supplied by the API caller when a Dialect is configured, not SQL text",
     ("sqlglot.generators.singlestore:_unicode_substitute", "int(m.group(1), 16)"):
         "the argument is group 1 of the regular expression the substitution runs with (hex digits only by construction of the pattern)",
-    ("sqlglot.generator:Generator.bitstring_sql", "int(this, 2)"):
-        "BitString nodes are only built from BIT_STRING tokens, whose text the tokenizer validated with int(text, 2) (C05.g scope) before emitting the token",
-    ("sqlglot.generator:Generator.hexstring_sql", "int(this, 16)"):
-        "HexString nodes are only built from HEX_STRING tokens, whose text the tokenizer validated with int(text, 16) before emitting the token",
 }
 
 
